@@ -75,3 +75,65 @@ pub fn plain_sum<'a>(writes: In<'a, i32>, reads: In<'a, i32>) {
     }
     .embedded_output("resp");
 }
+
+// ---- reduce-style registers (state kept with `reduce` / `max` / keyed `reduce` inside the atomic
+// region: the Reduce / ReduceKeyed arm of emit_core, not the Fold arm) ----
+
+/// last-writer-wins register (`.last()` = `reduce(|curr, new| *curr = new)`) updated in the atomic
+/// region; a read answers `(id, Option<value>)`
+pub fn atomic_lww<'a>(writes: In<'a, i32>, reads: In<'a, i32>) {
+    let atomic_write = writes.atomic();
+    let register = atomic_write.clone().last();
+    atomic_write.end_atomic().embedded_output("acks");
+    sliced! {
+        let batch_of_req = use::batch(reads, nondet!(/** harness decides batches */));
+        let latest = use::atomic(register, nondet!(/** atomic snapshot */));
+        batch_of_req.cross_singleton(latest.into_singleton())
+    }
+    .embedded_output("resp");
+}
+
+/// high-water-mark register (`.max()`) updated in the atomic region
+pub fn atomic_max<'a>(writes: In<'a, i32>, reads: In<'a, i32>) {
+    let atomic_write = writes.atomic();
+    let register = atomic_write.clone().max();
+    atomic_write.end_atomic().embedded_output("acks");
+    sliced! {
+        let batch_of_req = use::batch(reads, nondet!(/** harness decides batches */));
+        let latest = use::atomic(register, nondet!(/** atomic snapshot */));
+        batch_of_req.cross_singleton(latest.into_singleton())
+    }
+    .embedded_output("resp");
+}
+
+/// per-key last-writer-wins registers (keyed `reduce`): writes `(key, value)` are acknowledged
+/// after the key's register is overwritten; `get` requests `(client, key)` read it
+pub fn keyed_lww<'a>(incs: In<'a, (i32, i32)>, gets: In<'a, (i32, i32)>) {
+    let write_processing = incs.into_keyed().atomic();
+    let registers = write_processing
+        .clone()
+        .reduce(q!(|curr: &mut i32, new: i32| *curr = new));
+    let write_ack = write_processing.end_atomic();
+    write_ack
+        .entries()
+        .assume_ordering::<TotalOrder>(nondet!(/** harness sorts */))
+        .embedded_output("acks");
+
+    let requests_regrouped = gets
+        .into_keyed()
+        .entries()
+        .map(q!(|(cid, key)| (key, cid)))
+        .into_keyed();
+
+    let get_lookup = sliced! {
+        let request_batch = use::batch(requests_regrouped, nondet!(/** we never observe batch boundaries */));
+        let snapshot = use::atomic(registers, nondet!(/** atomicity guarantees consistency wrt writes */));
+        request_batch.join_keyed_singleton(snapshot)
+    };
+
+    get_lookup
+        .entries()
+        .map(q!(|(key, (client, value))| (client, (key, value))))
+        .assume_ordering::<TotalOrder>(nondet!(/** harness sorts */))
+        .embedded_output("resp");
+}
